@@ -23,6 +23,8 @@ import os as _os
 COV_DIR = _os.environ.get("VERIF_COV")
 COV = set() if COV_DIR else None
 _COV_FLUSHED = set()
+DIRECT = set()  # functions asked directly by rule code (call depth 0): the property's own question surface
+_DIRECT_FLUSHED = set()
 
 
 def cov_flush():
@@ -34,6 +36,12 @@ def cov_flush():
             for m, l in new:
                 fh.write(f"{m}\t{l}\n")
         _COV_FLUSHED.update(new)
+    newd = DIRECT - _DIRECT_FLUSHED
+    if newd:
+        with open(_os.path.join(COV_DIR, f"{_os.getpid()}.direct"), "a") as fh:
+            for q in newd:
+                fh.write(q + "\n")
+        _DIRECT_FLUSHED.update(newd)
 
 
 class Uninterpretable(AnalysisError):
@@ -385,6 +393,8 @@ class Interp:
 
     def call_func(self, func: Func, args: List[Any], kwargs: Dict[str, Any], self_val=None, depth=0):
         Obj._it = self
+        if COV is not None and depth == 0:
+            DIRECT.add(func.qual)
         if depth > self.max_depth:
             raise Uninterpretable(f"call depth exceeded at {func.qual}")
         if func.qual in self.hooks:
@@ -1600,12 +1610,16 @@ class Interp:
                 # Python's construction protocol: cls.__new__(cls, *args) and, when it returns an instance of cls,
                 # __init__ on whatever it returned (an interning __new__ hands back an existing object, which is then
                 # re-initialised)
+                if COV is not None and depth == 0:
+                    DIRECT.add(new.qual)
                 o = self.call_func(new, args, kwargs, ClassTok(f.name), depth + 1)
                 if not (isinstance(o, Obj) and o.cls_name == f.name):
                     return o
             else:
                 o = Obj(f.name)
             if init is not None:
+                if COV is not None and depth == 0:
+                    DIRECT.add(init.qual)
                 self.call_func(init, args, kwargs, o, depth + 1)
             elif any("dataclass" in d for k in self.repo.mro(c) for d in k.decorators) or \
                     any(b.split(".")[-1] == "NamedTuple" for k in self.repo.mro(c) for b in k.bases):
